@@ -13,3 +13,5 @@ CFG = dict(
      timeout_quick=300, timeout_thorough=1800)
 CFG["rule"] += ' Added after independently written breaking changes: Source errors are sticky or one-shot (reported by one Read call only), alone or with data.'
 CFG["rule"] += ' After ErrStreamTooLarge three more Reads must each return (0, ErrStreamTooLarge). Source style "HTTP body already read and closed by its owner" (Read reports http.ErrBodyReadAfterClose) in the Read-path cases of MultiReaderCloser: no bytes, and the stream must not close it a second time.'
+CFG["rule"] += ' The way a stream is closed is part of the case: the Close of a source (all three stream types) or of the tee writer (on its first call only, or on every call) may report an error, Close is called one to three times whatever the earlier calls returned, optionally with a Read after each call: after EVERY Close call each closable source has been closed exactly once, and a closed source is not read again.'
+CFG["rule"] += ' TeePending (synctest bubble, no clock): Stop() or Close() from another goroutine while a Read of the consumer is pending inside the source (a source whose k-th Read waits on a gate of the harness; the harness lets it go on only when every goroutine of the bubble is parked - on a channel or on the stream mutex - or gone, or, in a quarter of the cases, at once). After Stop the caller goes on reading the source itself: tee-delivered bytes + the rest read from the source == the source, writer bytes == tee-delivered bytes; after Close consumer and writer hold the same prefix and the source was closed exactly once. Non-trivial there: the gated Read was reached and returned data.'
